@@ -52,7 +52,8 @@ func renderValues(class string) []any {
 	case "str_plain":
 		return []any{"hello", "", "100% done, %d items %s %!"}
 	case "str_html":
-		return []any{"<b>&amp;\"'</b>", "</script><script>alert(1)</script>"}
+		// (the last one: text ABOUT escapes - a literal backslash followed by u0026 / u003c / u003e)
+		return []any{"<b>&amp;\"'</b>", "</script><script>alert(1)</script>", "C:\\users\\u0026co writes \\u003cb\\u003e & <i>"}
 	case "str_ctrl":
 		return []any{"a\tb\nc\x00d\x1f", "\r\n\r\n"}
 	case "str_unicode":
@@ -94,6 +95,12 @@ func renderReplay(s *Summary, raw json.RawMessage) {
 			continue
 		}
 		renderHelper(s, &c, v, "")
+		if c.H == "MustRender" || c.H == "ShouldRender" {
+			for renderOptNo = 1; renderOptNo < 4; renderOptNo++ {
+				renderHelper(s, &c, v, "")
+			}
+			renderOptNo = 0
+		}
 		if c.H == "HTTPError" {
 			// the failure path of a handler that had already announced the size of the answer it meant to give: the error
 			// message is what the client gets, whole (net/http enforces an announced length)
@@ -226,9 +233,9 @@ func renderHelper(s *Summary, c *renderCase, v any, presetText string) {
 				cx.Stream(c.Status, "image/custom", iotest.DataErrReader(bytes.NewReader(asBytes(v))))
 			}
 		case "MustRender":
-			cx.MustRender(c.Status, v, render.JSONRenderer{})
+			cx.MustRender(c.Status, v, renderJSONOpts())
 		case "ShouldRender":
-			retErr = cx.ShouldRender(c.Status, v, render.JSONRenderer{})
+			retErr = cx.ShouldRender(c.Status, v, renderJSONOpts())
 		case "NoContent":
 			cx.NoContent()
 		case "Redirect":
@@ -381,4 +388,12 @@ func renderAccept(s *Summary, c *renderCase) {
 			return
 		}
 	}
+}
+
+var renderOptNo int
+
+// renderJSONOpts: the JSON renderer with its options in turn (plain, HTML not escaped, indented, both): the body decodes
+// back to the value with every one of them
+func renderJSONOpts() render.JSONRenderer {
+	return []render.JSONRenderer{{}, {NotEscape: true}, {Indent: "  "}, {NotEscape: true, Indent: "\t"}}[renderOptNo%4]
 }
